@@ -38,7 +38,7 @@ from urllib.parse import urlsplit
 from harness.common import exc_token, tok_str
 from vk.core import Case, Ctx
 
-GEN_MODULES: List[str] = ["C14Types", "C08Types"]
+GEN_MODULES: List[str] = ["C14Types", "C08Types", "C06Types"]
 MANIFEST = {
     "design_ref": "§5 C14",
     "text": ("Lean theorems over the executable tree-level model of server.py's HTTP side composed with the client "
